@@ -167,6 +167,16 @@ def enumerated(tier):
         lo, hi, mmin, mmax = f(lo), f(hi), f(mmin), f(mmax)
       yield {'k': 'in_range_typed', 't': t,
              'lim': [lo, hi, mmin, mmax]}
+  # mixed declarations: one limit textual (a with_args placeholder or a string
+  # needing the declared type), the others numbers; the pairs of numbers among
+  # them are checked for consistency like in an all-numeric declaration
+  for pos in range(4):
+    for text in ('{later}', '4'):
+      for nums in ((10, 0, 5, 6), (0, 10, 5, 6), (0, 10, -1, 6), (0, 10, 5, 11),
+                   (0, 10, 7, 6), (5, 5, 5, 5)):
+        lim = list(nums)
+        lim[pos] = text
+        yield {'k': 'in_range_mixed', 'lim': lim}
   # typed limits given as numbers which the declared type changes (int
   # truncates, 'milli' divides by 1000)
   for t, tup in [('int', (0.5, 10.7, None, None)), ('int', (0.5, 10.9, None, 8.9)),
@@ -449,6 +459,20 @@ def run_case(case):
       ctx.c['derived_compared'] += 1
       if str(v) != want:
         ctx.bad('in_range_typed:prints-differently', got=str(v), want=want)
+  elif k == 'in_range_mixed':
+    lo, hi, mmin, mmax = case['lim']
+    num = lambda x: isinstance(x, (int, float)) and not isinstance(x, bool)
+    bad_pair = ((num(lo) and num(hi) and lo > hi) or
+                (num(lo) and num(mmin) and lo > mmin) or
+                (num(mmax) and num(hi) and mmax > hi) or
+                (num(mmin) and num(mmax) and mmin > mmax))
+    ctx.c['ctor_verdicts'] += 1
+    kind, v = call(lambda: V.InRange(lo, hi, mmin, mmax, type=int))
+    if bad_pair and kind == 'ok':
+      ctx.bad('in_range_mixed:ctor-accepts-inconsistent', limits=repr(case['lim']))
+    if not bad_pair and kind != 'ok':
+      ctx.bad('in_range_mixed:ctor-rejects-consistent', limits=repr(case['lim']),
+              exc=v)
   elif k in ('equals_num', 'all_equals_num'):
     val = dec(case['v'])
     probes = probes_for([val])
